@@ -139,6 +139,26 @@ theorem C07_extent_offset_partial (lo : List Int) (ext : List Nat) (g : GridGeom
   | rect ords => rfl
   | struct pts => rfl
 
+/-- **File content, partial**: with the same hypothesis the content VTK's semantics assigns to a structured
+    file (`filePointContent` / `fileCellContent`, extent lower ends `lo` taken into account) is the content
+    `C07_read_content` proves the reader returns.  (For image data with `lo ≠ 0` the two differ: F14.) -/
+theorem C07_file_content_partial (lo : List Int) (ext : List Nat) (g : GridGeom) (pfs : List PointField)
+    (cfs : List (String × NdArr)) (h : imageOffset lo g = false) (hl : lo.length = 3) (he : ext.length = 3) :
+    filePointContent lo ext g pfs = gridPointContent ext g pfs ∧
+    fileCellContent lo ext g cfs = gridCellContent ext g cfs := by
+  constructor
+  · unfold filePointContent gridPointContent
+    apply List.map_congr_left
+    intro p _
+    rw [C07_extent_offset_partial lo ext g _ h hl (by simp [unflatten_length, he])]
+  · unfold fileCellContent gridCellContent
+    apply List.map_congr_left
+    intro c _
+    congr 1
+    apply List.map_congr_left
+    intro δ _
+    rw [C07_extent_offset_partial lo ext g _ h hl (by simp [expand_length, he])]
+
 /-- **meshio bridge, partial**: for a well-formed meshio mesh in which every cell type occurs in AT MOST ONE
     block, `from_meshio` does not raise and preserves the content: every cell of every block with its corner
     coordinates and the values of its own block, every connected point with its values.
